@@ -9,5 +9,6 @@ CONSTANTS W = 2
           RepW = 0
           Which = "all"
           MutualFull = TRUE
+          Repaired = {8, 9, 11}
 INVARIANTS L2SoundModulo
 CHECK_DEADLOCK FALSE
